@@ -34,8 +34,42 @@ inductive Out where
   | err                       -- CreateBucket returned an error
   | nobucket                  -- `Bucket(name)` returned nil
   | val (v : Option Nat)      -- Get: nil ↦ none
-  | kvs (l : List (Nat × Nat))  -- Iter, sorted by key
-  deriving Repr, DecidableEq
+  | kvs (m : KMap)            -- Iter: the set of pairs yielded (the driver prints it sorted by key)
+  deriving Repr
+
+/-- decidable equality, written out so that the evidence for `a = b` stays inside proofs
+(the derived instance casts the `Decidable` value along `a = b`, which the kernel cannot
+evaluate for two differently balanced trees representing the same `KMap`; the examples
+in `Props/C17.lean` are evaluated by `decide`). -/
+instance : DecidableEq Out := fun x y =>
+  match x, y with
+  | .ok, .ok => isTrue rfl
+  | .ok, .err => isFalse nofun
+  | .ok, .nobucket => isFalse nofun
+  | .ok, .val _ => isFalse nofun
+  | .ok, .kvs _ => isFalse nofun
+  | .err, .ok => isFalse nofun
+  | .err, .err => isTrue rfl
+  | .err, .nobucket => isFalse nofun
+  | .err, .val _ => isFalse nofun
+  | .err, .kvs _ => isFalse nofun
+  | .nobucket, .ok => isFalse nofun
+  | .nobucket, .err => isFalse nofun
+  | .nobucket, .nobucket => isTrue rfl
+  | .nobucket, .val _ => isFalse nofun
+  | .nobucket, .kvs _ => isFalse nofun
+  | .val _, .ok => isFalse nofun
+  | .val _, .err => isFalse nofun
+  | .val _, .nobucket => isFalse nofun
+  | .val a, .val b =>
+      if h : a = b then isTrue (congrArg Out.val h) else isFalse (fun e => h (Out.val.inj e))
+  | .val _, .kvs _ => isFalse nofun
+  | .kvs _, .ok => isFalse nofun
+  | .kvs _, .err => isFalse nofun
+  | .kvs _, .nobucket => isFalse nofun
+  | .kvs _, .val _ => isFalse nofun
+  | .kvs a, .kvs b =>
+      if h : a = b then isTrue (congrArg Out.kvs h) else isFalse (fun e => h (Out.kvs.inj e))
 
 /-! ## Specification: a working image and a durable image -/
 
@@ -66,7 +100,7 @@ def Spec.step (s : Spec) : Op → Spec × Out
       | some m => (s, .val m[k]?)
   | .iter b => match s.working b with
       | none => (s, .nobucket)
-      | some m => (s, .kvs m.toList)
+      | some m => (s, .kvs m)
   | .flush => ({ s with durable := s.working }, .ok)
   | .cancel => ({ s with working := s.durable }, .ok)
 
@@ -162,7 +196,7 @@ def MemDB.step (d : MemDB) : Op → MemDB × Out
       | none => (d, .err)
       | some d' => (d', .ok)
   | .get b k => if !d.has b then (d, .nobucket) else (d, .val (d.get b k))
-  | .iter b => if !d.has b then (d, .nobucket) else (d, .kvs (d.iterMap b).toList)
+  | .iter b => if !d.has b then (d, .nobucket) else (d, .kvs (d.iterMap b))
   | .flush => (d.flush, .ok)
   | .cancel => (d.cancel, .ok)
 
@@ -191,10 +225,10 @@ def innerGet {σ} (B : Backend σ) (s : σ) (b k : Nat) : Option Nat :=
   | .val v => v
   | _ => none
 
-def innerIter {σ} (B : Backend σ) (s : σ) (b : Nat) : List (Nat × Nat) :=
+def innerIter {σ} (B : Backend σ) (s : σ) (b : Nat) : KMap :=
   match (B.step s (.iter b)).2 with
-  | .kvs l => l
-  | _ => []
+  | .kvs m => m
+  | _ => ∅
 
 /-- `CacheDB.Bucket` (`:262-271`): creates the overlay bucket on demand. -/
 def CacheDB.ensure {σ} (c : CacheDB σ) (b : Nat) : CacheDB σ :=
@@ -222,8 +256,11 @@ def MemDB.cleared (m : MemDB) : MemDB :=
     puts := fun b => (m.puts b).map fun _ => ∅
     dels := fun b => (m.dels b).map fun _ => ∅ }
 
-/-- `names` is the list of bucket names the overlay has ever seen (the harness and
-the driver track it; Go ranges over the maps). -/
+/-- `names` is the list of bucket names `Flush` ranges over (Go ranges over the keys of
+`db.mem.puts` / `db.mem.dels`, in arbitrary order; the bucket dimension of the model is a
+function, so the names are supplied: the driver passes every name seen so far, see
+`CacheDB.stepN`; `cachedb_step_refines` holds for every list that contains the names of
+the overlay's buckets, in any order). -/
 def CacheDB.step {σ} (B : Backend σ) (names : List Nat) (c : CacheDB σ) : Op → CacheDB σ × Out
   | .create b =>
       match B.step c.inner (.create b) with
@@ -253,12 +290,14 @@ def CacheDB.step {σ} (B : Backend σ) (names : List Nat) (c : CacheDB σ) : Op 
          else (c, .val (innerGet B c.inner b k)))
   | .iter b => if !innerHas B c.inner b then (c, .nobucket) else
       let c := c.ensure b
-      -- `cacheBucket.Iter` (`:224-241`): overlay pairs, then inner pairs not shadowed
+      -- `cacheBucket.Iter` (`:224-241`): overlay pairs, then inner pairs not shadowed by a
+      -- pending put or delete (the two parts have disjoint keys, so the yielded pairs form
+      -- the map `inn ∪ over`)
       let over := c.mem.iterMap b
       let p := (c.mem.puts b).getD ∅
       let ds := (c.mem.dels b).getD ∅
-      let inn := (innerIter B c.inner b).filter fun (k, _) => !(p.contains k || ds.contains k)
-      (c, .kvs (Std.ExtTreeMap.ofList (inn ++ over.toList)).toList)
+      let inn := (innerIter B c.inner b).filter fun k _ => !(p.contains k || ds.contains k)
+      (c, .kvs (inn ∪ over))
   | .flush =>
       let s1 := runInner B c.inner (CacheDB.flushOps c.mem names)
       let s2 := (B.step s1 .flush).1
@@ -268,5 +307,31 @@ def CacheDB.step {σ} (B : Backend σ) (names : List Nat) (c : CacheDB σ) : Op 
 
 def specBackend : Backend Spec := ⟨Spec.step⟩
 def memBackend : Backend MemDB := ⟨MemDB.step⟩
+
+/-- the bucket name an operation mentions -/
+def Op.bucket? : Op → Option Nat
+  | .create b | .put b _ _ | .del b _ | .get b _ | .iter b => some b
+  | _ => none
+
+/-- bookkeeping of the bucket names seen so far: a name is added only when it is not
+already contained (so the list never has duplicates). -/
+def addName (names : List Nat) (op : Op) : List Nat :=
+  match op.bucket? with
+  | some b => if names.contains b then names else b :: names
+  | none => names
+
+/-- `CacheDB.step` together with the bookkeeping of the names seen so far — this is the
+function the driver runs against the real `CacheDB`. -/
+def CacheDB.stepN {σ} (B : Backend σ) (cn : CacheDB σ × List Nat) (op : Op) :
+    (CacheDB σ × List Nat) × Out :=
+  let names := addName cn.2 op
+  let r := CacheDB.step B names cn.1 op
+  ((r.1, names), r.2)
+
+/-- `NewCacheDB(db)` on a fresh inner database (`db.go:353-360`): empty overlay, no names -/
+def CacheDB.init {σ} (x : σ) : CacheDB σ × List Nat := (⟨MemDB.init, x⟩, [])
+
+/-- a `CacheDB` (with its name bookkeeping) is itself a backend, so caches can be stacked -/
+def cacheBackend {σ} (B : Backend σ) : Backend (CacheDB σ × List Nat) := ⟨CacheDB.stepN B⟩
 
 end Verif.KV
